@@ -57,6 +57,12 @@ Print Assumptions C12_one_final_head.
 Theorem C12_no_ctl_in_validated_headers : forall hs l,
   validate_headers hs = Ok l -> Forall (fun h => has_ctl (fst h) = false /\ has_ctl (snd h) = false) l.
 Proof. exact validate_headers_clean. Qed.
+(* ... nor is any of them a pseudo header: no name that reaches the wire begins with a colon, whatever white space the
+   application put around it (finding F67: " :status" used to pass the check and be stripped to ":status") *)
+Theorem C12_no_pseudo_header_reaches_the_wire : forall hs l,
+  validate_headers hs = Ok l -> Forall (fun h => starts_colon (fst h) = false) l.
+Proof. exact validate_headers_no_pseudo. Qed.
+Print Assumptions C12_no_pseudo_header_reaches_the_wire.
 Print Assumptions C12_no_ctl_in_validated_headers.
 
 (* Converse: every run the reference automaton accepts (with byte-string bodies) is accepted. *)
